@@ -203,7 +203,7 @@ func genC16Years(rt *rapid.T, name string) int64 {
 
 func TestC16(t *testing.T) {
 	rec := ev.For("C16")
-	rec.Describe("fork-mode histories of 1-6 RegisterName messages: names of 1-8 chars over [A-Za-z0-9_-] (mostly from a small alphabet so steps collide), both TLDs, year counts from {1,2,3,5,100} and arithmetic boundary values (0, negative, around MaxInt64/price, values making price*years wrap), registrants with balances around the price, heights before / at / long after the previous expiry, re-registration by the same or another account; interleaved with free initial registrations (MsgInit, several per block) at heights whose generated candidate names are partly held by paying registrants. Oracle: exact big.Int price to POL, name resolves, expiry >= height + Y*5484530 (renewal of a live name: exactly old + Y*5484530), live names refused to non-owners. Non-trivial = a re-registration at a height past the previous expiry or a renewal of a live name; distinct = distinct traces.",
+	rec.Describe("fork-mode histories of 1-6 RegisterName messages: names of 1-8 chars over [A-Za-z0-9_-] (mostly from a small alphabet so steps collide), both TLDs, year counts from {1,2,3,5,100} and arithmetic boundary values (0, negative, around MaxInt64/price, values making price*years wrap), registrants with balances around the price, heights before / at / long after the previous expiry, re-registration by the same or another account; interleaved with record traffic of other holders (AddRecord / Update / DelRecord on their own names with the label of the name registered last: that name must stay with its registrant, expiry untouched) and with free initial registrations (MsgInit, several per block) at heights whose generated candidate names are partly held by paying registrants. Oracle: exact big.Int price to POL, name resolves, expiry >= height + Y*5484530 (renewal of a live name: exactly old + Y*5484530), live names refused to non-owners. Non-trivial = a re-registration at a height past the previous expiry or a renewal of a live name; distinct = distinct traces.",
 		"price table (10/50 JKL base, x24/x12/x6/x3 for 1-4 characters) is copied into the oracle as 'the listed price'",
 		"height == previous Expires is accepted under either reading")
 	c := chain.New(chain.GenesisOpts{NumAccounts: 3, Balance: sdk.NewCoins(sdk.NewInt64Coin("ujkl", 1_000_000_000_000)),
@@ -300,6 +300,44 @@ func TestC16(t *testing.T) {
 								}
 							}
 						}
+					}
+				}
+			}
+			if lastName != "" && rapid.IntRange(0, 3).Draw(rt, "recordTraffic") == 0 {
+				// another holder files a record under its OWN name whose label equals the label of the name registered last,
+				// rewrites it and removes it again: records live inside their parent, so the registered name must go on
+				// resolving to its registrant with its expiry untouched ("for the term")
+				if key, ok := canonKey(strings.ReplaceAll(lastName, " ", "")); ok {
+					if victim, found := w.names()[key]; found && w.f.Height() < victim.Expires {
+						other := chain.Acc((rapid.IntRange(0, 2).Draw(rt, "recordHolder")))
+						own := fmt.Sprintf("holder%d.%s", other.Index, key[len(key)-3:])
+						if _, has := w.names()[own]; !has {
+							w.f.Exec(rnstypes.NewMsgRegisterName(other.Bech, own, 1, "{}", false))
+						}
+						label := key[:len(key)-4]
+						before := w.names()
+						for _, m := range []sdk.Msg{
+							rnstypes.NewMsgAddRecord(other.Bech, own, label, other.Bech, `{"r":1}`),
+							rnstypes.NewMsgUpdate(other.Bech, label+"."+own, `{"r":2}`),
+							rnstypes.NewMsgDelRecord(other.Bech, label+"."+own),
+						} {
+							if rapid.IntRange(0, 3).Draw(rt, "skipRecordMsg") == 0 {
+								continue
+							}
+							r := w.f.Exec(m)
+							w.logf("%s by acc%d -> %s", msgSummary(m), other.Index, r)
+						}
+						after := w.names()
+						for _, k := range sortedNameKeys(before) {
+							b := before[k]
+							if k == own || w.f.Height() >= b.Expires {
+								continue
+							}
+							if a, still := after[k]; !still || a.Value != b.Value || a.Expires != b.Expires {
+								failf(rt, rec, "C16/registered-name-lost-to-record-traffic", w.trace, "%s (registered to %s until %d) was changed by record messages of acc%d on its own name %s: now held by %q until %d", k, short(b.Value), b.Expires, other.Index, own, short(a.Value), a.Expires)
+							}
+						}
+						rec.Count("record-traffic")
 					}
 				}
 			}
